@@ -185,7 +185,7 @@ pub fn run() -> i32 {
     let tier = ctx.tier;
     let gh_max = tier.pick(700usize, 2100);
     let max = tier.pick(2100usize, 4200);
-    ctx.rule = format!("full products per primitive, each cell compared with libsodium: BLAKE2b every (outlen 16..=64) x (no key | every key length 16..=64) x every input length 0..={} (classic one-shot, init/update/final, GenericHash<K,O> for 24 const instantiations); SHA-512, HMAC-SHA-512-256, Poly1305, SipHash-2-4: every length 0..={} x 5 keys x 4 contents (classic and object API); every primitive additionally on large inputs (4 KiB..64 KiB+1, thorough to 1 MiB+1); Poly1305 constructed operands (r/s corner values x all 1..=4-block strings over 5 block values + partial tails; accumulators solved to hit p-2..p+6, 2^130-6..2^130+6, 2p-2..2p+2 exactly); HSalsa20/HChaCha20 key x input alphabet, all 384 single-bit inputs, with/without custom constants; little-endian increment for every 1- and 2-byte value, all-0xff lengths 0..=16 and carry boundaries; verify functions: correct tag accepted, every single-bit mutation rejected; a corpus of the cells (every 3rd length) is written for the independent Python reference; non-trivial = cell executed in dryoc and libsodium", gh_max, max);
+    ctx.rule = format!("full products per primitive, each cell compared with libsodium: BLAKE2b every (outlen 16..=64) x (no key | every key length 16..=64) x every input length 0..={} (classic one-shot, init/update/final, GenericHash<K,O> for 24 const instantiations); SHA-512, HMAC-SHA-512-256, Poly1305, SipHash-2-4: every length 0..={} x 5 keys x 4 contents (classic and object API); every primitive additionally on large inputs (4 KiB..64 KiB+1, thorough to 1 MiB+1); Poly1305 constructed operands (r/s corner values x all 1..=4-block strings over 5 block values + partial tails; accumulators solved to hit p-2..p+6, 2^130-6..2^130+6, 2p-2..2p+2 exactly); HSalsa20/HChaCha20 key x input alphabet, all 384 single-bit inputs, with/without custom constants; little-endian increment for every 1- and 2-byte value, all-0xff lengths 0..=16 and carry boundaries; verify functions: correct tag accepted, every single-bit mutation rejected, every proper prefix of the correct tag (Vec containers) never accepted; a corpus of the cells (every 3rd length) is written for the independent Python reference; non-trivial = cell executed in dryoc and libsodium", gh_max, max);
     ctx.assume("reference 1: libsodium 1.0.18 in-process; reference 2: Python hashlib/hmac/big-integer re-computation of the dumped corpus (ref/spec_check.py), run by bin/check after this binary");
     ctx.assume("inputs of 2^64 bytes or more are excluded, as in the property");
 
@@ -331,6 +331,43 @@ pub fn run() -> i32 {
                 }
             }
             st.eval(&("verify", len), true, if rejected == 384 { "verify-rejects-all-384-mutations" } else { "verify-accepts-mutation" });
+            // authenticators handed over in a run-time-sized container of the wrong length (every
+            // proper prefix; longer containers are by design read as their first N bytes) are "other values" too:
+            // they must never be accepted (whether refused by Err or by a panic is not fixed)
+            if len <= 8 {
+                let wrong: Vec<Vec<u8>> = (0..32).map(|n| good[..n].to_vec()).collect();
+                let wrongp: Vec<Vec<u8>> = (0..16).map(|n| goodp[..n].to_vec()).collect();
+                let mut all_refused = true;
+                for t in &wrong {
+                    let (m2, t2) = (m.clone(), t.clone());
+                    let a = guarded(AssertUnwindSafe(move || {
+                        let mut au = Auth::new(k32);
+                        au.update(&m2);
+                        au.verify(&t2).is_ok()
+                    }));
+                    let (m2, t2) = (m.clone(), t.clone());
+                    let b = guarded(AssertUnwindSafe(move || Auth::compute_and_verify(&t2, k32, &m2).is_ok()));
+                    if a == Ok(true) || b == Ok(true) {
+                        all_refused = false;
+                        fail(st, "auth_verify", "accepts-wrong-length", format!("Auth::verify / compute_and_verify accepted a {}-byte authenticator (message len {})", t.len(), len), json!({"prim": "auth", "key": hx(&k32), "msg": hx(&m)}));
+                    }
+                }
+                for t in &wrongp {
+                    let (m2, t2) = (m.clone(), t.clone());
+                    let a = guarded(AssertUnwindSafe(move || {
+                        let mut au = OnetimeAuth::new(k32);
+                        au.update(&m2);
+                        au.verify(&t2).is_ok()
+                    }));
+                    let (m2, t2) = (m.clone(), t.clone());
+                    let b = guarded(AssertUnwindSafe(move || OnetimeAuth::compute_and_verify(&t2, k32, &m2).is_ok()));
+                    if a == Ok(true) || b == Ok(true) {
+                        all_refused = false;
+                        fail(st, "onetimeauth_verify", "accepts-wrong-length", format!("OnetimeAuth::verify / compute_and_verify accepted a {}-byte authenticator (message len {})", t.len(), len), json!({"prim": "onetimeauth", "key": hx(&k32), "msg": hx(&m)}));
+                    }
+                }
+                st.eval(&("verify-wrong-length", len), true, if all_refused { "verify-refuses-wrong-length" } else { "verify-accepts-wrong-length" });
+            }
         }
         if len == 129 {
             st.sample(json!({"primitives": ["SHA-512", "HMAC-SHA-512-256", "Poly1305", "SipHash-2-4"], "input_len": 129, "keys": K_NAMES, "contents": C_NAMES}));
